@@ -576,6 +576,43 @@ impl S3 {
                     Err(_) => "panic".into(),
                 }
             }
+            ["nvert"] => format!("ok {}", self.map.n_vertices()),
+            ["icell", i, x] => {
+                // i_cell::<I>: the orbit of the I-cell (I out of range: the assertion panics)
+                let Some(x) = d(x) else { return "bad-op".into() };
+                if i.parse::<u8>().is_err() {
+                    return "bad-op".into();
+                }
+                match catch_unwind(AssertUnwindSafe(|| match *i {
+                        "0" => nats(self.map.i_cell::<0>(x)),
+                        "1" => nats(self.map.i_cell::<1>(x)),
+                        "2" => nats(self.map.i_cell::<2>(x)),
+                        "3" => nats(self.map.i_cell::<3>(x)),
+                        "4" => nats(self.map.i_cell::<4>(x)),
+                        _ => panic!("I out of range"),
+                    })) {
+                    Ok(s) => if s.is_empty() { "ok".into() } else { format!("ok {s}") },
+                    Err(_) => "panic".into(),
+                }
+            }
+            ["isfree", i, x] => {
+                let Some(x) = d(x) else { return "bad-op".into() };
+                if *i != "all" && i.parse::<u8>().is_err() {
+                    return "bad-op".into();
+                }
+                match catch_unwind(AssertUnwindSafe(|| match *i {
+                        "all" => self.map.is_free(x),
+                        "0" => self.map.is_i_free::<0>(x),
+                        "1" => self.map.is_i_free::<1>(x),
+                        "2" => self.map.is_i_free::<2>(x),
+                        "3" => self.map.is_i_free::<3>(x),
+                        "4" => self.map.is_i_free::<4>(x),
+                        _ => panic!("I out of range"),
+                    })) {
+                    Ok(b) => format!("ok {b}"),
+                    Err(_) => "panic".into(),
+                }
+            }
             ["orbitnt", pol, x] => {
                 let (Some(pol), Some(x)) = (policy(pol), d(x)) else { return "bad-op".into() };
                 match catch_unwind(AssertUnwindSafe(|| nats(self.map.orbit(pol, x)))) {
